@@ -153,6 +153,14 @@ def not_fresh(ap: AP) -> bool:
 def call_events(an: Analysis, fn: FunctionInfo, node: Node) -> Iterable[Event]:
     """VALIDATE / CODEC / LOAD_TREE / TO_TREE / CFG_VALIDATE / PARSE / INCLUDE / OPEN / FILE_* /
     PRINT / ENV_READ / URANDOM events at node (classified by resolved callee)."""
+    if node.kind in ("test", "return") and node.ast is not None:
+        # `name in os.environ`: asks the environment as well
+        root = node.ast if isinstance(node.ast, ast.expr) else getattr(node.ast, "value", None)
+        for x in (ast.walk(root) if root is not None else ()):
+            if isinstance(x, ast.Compare) and any(isinstance(o, (ast.In, ast.NotIn)) for o in x.ops) and any(
+                    isinstance(c, ast.Attribute) and c.attr == "environ" for c in x.comparators):
+                yield ("ENV_READ", None, "in os.environ")
+                break
     if node.kind not in ("call", "with_enter", "attr", "assign", "subscript"):
         return
     model = an.model
@@ -209,6 +217,14 @@ def call_events(an: Analysis, fn: FunctionInfo, node: Node) -> Iterable[Event]:
         e = node.ast
         if isinstance(e.value, ast.Attribute) and e.value.attr == "environ":
             yield ("ENV_READ", None, "os.environ[]")
+    if node.kind in ("assign",) and node.ast is not None:
+        # `name in os.environ`: asks the environment as well
+        root = node.ast if isinstance(node.ast, ast.expr) else getattr(node.ast, "value", None)
+        for x in (ast.walk(root) if root is not None else ()):
+            if isinstance(x, ast.Compare) and any(isinstance(o, (ast.In, ast.NotIn)) for o in x.ops) and any(
+                    isinstance(c, ast.Attribute) and c.attr == "environ" for c in x.comparators):
+                yield ("ENV_READ", None, "in os.environ")
+                break
 
 
 def open_path_expr(call: ast.Call):
